@@ -951,7 +951,8 @@ def split_curve(obj, param, **kwargs):
     insert_knot_func(temp_obj, [param], num=[r], check_num=False)
 
     # Knot vectors
-    knot_span = span_func(temp_obj.degree, temp_obj.knotvector, len(temp_obj.ctrlpts), param) + 1
+    knot_span = ks + r + temp_obj.degree  # span of the split parameter after inserting it "r" times, plus one
+    param = temp_obj.knotvector[knot_span - 1]  # use the knot value as stored in the knot vector
     curve1_kv = list(temp_obj.knotvector[0:knot_span])
     curve1_kv.append(param)
     curve2_kv = list(temp_obj.knotvector[knot_span:])
@@ -1115,7 +1116,8 @@ def split_surface_u(obj, param, **kwargs):
     insert_knot_func(temp_obj, [param, None], num=[r, 0], check_num=False)
 
     # Knot vectors
-    knot_span = span_func(temp_obj.degree_u, temp_obj.knotvector_u, temp_obj.ctrlpts_size_u, param) + 1
+    knot_span = ks + r + temp_obj.degree_u  # span of the split parameter after inserting it "r" times, plus one
+    param = temp_obj.knotvector_u[knot_span - 1]  # use the knot value as stored in the knot vector
     surf1_kv = list(temp_obj.knotvector_u[0:knot_span])
     surf1_kv.append(param)
     surf2_kv = list(temp_obj.knotvector_u[knot_span:])
@@ -1188,7 +1190,8 @@ def split_surface_v(obj, param, **kwargs):
     insert_knot_func(temp_obj, [None, param], num=[0, r], check_num=False)
 
     # Knot vectors
-    knot_span = span_func(temp_obj.degree_v, temp_obj.knotvector_v, temp_obj.ctrlpts_size_v, param) + 1
+    knot_span = ks + r + temp_obj.degree_v  # span of the split parameter after inserting it "r" times, plus one
+    param = temp_obj.knotvector_v[knot_span - 1]  # use the knot value as stored in the knot vector
     surf1_kv = list(temp_obj.knotvector_v[0:knot_span])
     surf1_kv.append(param)
     surf2_kv = list(temp_obj.knotvector_v[knot_span:])
